@@ -1,4 +1,4 @@
-#!/bin/sh
+#!/bin/bash
 # selftest/run.sh [property]  — must-fail mutants must raise VIOLATION for their property, must-pass edits must not.
 # Each patch is applied to a scratch copy of /repo's working tree under $TMPDIR, checked, and the copy removed.
 export GOFLAGS=-mod=mod GOPROXY=off GOSUMDB=off GOTOOLCHAIN=local
